@@ -3,14 +3,15 @@
 // child processes, and records what the executor reported and what survived.
 //
 // Modes:
-//   (default)      supervisor: reads scenarios (NDJSON), runs each one in its own child process
-//                  ("-mode one"), several in parallel, and writes ONE trace file.  A panic or a hang
-//                  of the executor code is an observation (ExecutorExit line), not a harness crash.
-//   -mode one      plays the executor's event loop for one scenario: LAUNCH / MESSAGE / KILL events
-//                  go through the unmodified handlers (executor.VerifExecutor), the task's child is a
-//                  real /bin/sh process (or the fake OCC device below) in its own process group.
-//   -mode fakeocc  a fake OCC device (gRPC server on the control port) used as the child of
-//                  controllable tasks.
+//
+//	(default)      supervisor: reads scenarios (NDJSON), runs each one in its own child process
+//	               ("-mode one"), several in parallel, and writes ONE trace file.  A panic or a hang
+//	               of the executor code is an observation (ExecutorExit line), not a harness crash.
+//	-mode one      plays the executor's event loop for one scenario: LAUNCH / MESSAGE / KILL events
+//	               go through the unmodified handlers (executor.VerifExecutor), the task's child is a
+//	               real /bin/sh process (or the fake OCC device below) in its own process group.
+//	-mode fakeocc  a fake OCC device (gRPC server on the control port) used as the child of
+//	               controllable tasks.
 package main
 
 import (
@@ -69,22 +70,35 @@ type result struct {
 // controlPort picks the control port of scenario idx: unique within this run, offset by the
 // supervisor's pid so that concurrent runs do not meet, and free at the time of the probe.
 func controlPort(idx int) int {
-	p := 20000 + (os.Getpid()%15)*2500 + idx%2500
+	// below the ephemeral range (32768+), where outgoing connections of anybody may sit on a port
+	p := 10000 + (os.Getpid()%10)*2200 + idx%2200
 	for k := 0; k < 10; k++ {
 		l, err := net.Listen("tcp", fmt.Sprintf("127.0.0.1:%d", p))
 		if err == nil {
 			l.Close()
 			return p
 		}
-		p += 2503
-		if p > 60000 {
-			p -= 38000
+		p += 2203
+		if p > 32000 {
+			p -= 22000
 		}
 	}
 	return p
 }
 
+// runScenario runs one scenario in its own process; a control port that turned out to be taken
+// (harness trouble) gets one more attempt on another port.
 func runScenario(self, work string, raw []byte, deadline time.Duration, idx int) result {
+	res := runScenarioOnce(self, work, raw, deadline, idx)
+	for _, m := range res.lines {
+		if m["ev"] == "HarnessError" && strings.Contains(fmt.Sprint(m["what"]), "cannot listen") {
+			return runScenarioOnce(self, work, raw, deadline, idx+1103)
+		}
+	}
+	return res
+}
+
+func runScenarioOnce(self, work string, raw []byte, deadline time.Duration, idx int) result {
 	var sc Scenario
 	if err := json.Unmarshal(raw, &sc); err != nil {
 		return result{id: -1}
